@@ -44,6 +44,9 @@ CMD_OK = ["cat " + R + "/src/values_b.txt", ["cat", R + "/src/values_a.txt"], "e
 CMD_BAD = ["exit 3"]
 
 OPT_KEYS = ["allow_external_sources", "allow_template_vars", "vars_allowed_paths"]
+LOOKALIKE = ["Allow_External_Sources", "allow_external_sources ", "allow-external-sources", "allowexternalsources",
+             "ALLOW_TEMPLATE_VARS", "allow_template_var", "vars_allowed_path", "_values_cache", "_filter_pattern",
+             "_pipeline", "processing_item", "j2template", "_nested_pipeline", "_allow_external_sources"]
 ENV4 = [None, "0", "1", "true"]
 ENV_HOSTILE = ["TRUE", "True", "tRuE", "yes", "", " 1", "1 ", "on", "false", "2", "01", "t", "enabled"]
 PATHS_ARGS = [None, [R + "/allowed"], [R + "/alias"], [R + "/allowed/"], ["/"], [], [R + "/allow"],
@@ -62,6 +65,10 @@ def truthy(rng, key):
 def inject(m, rng, mode):
     """mode: 'none' | 'all' | 'tpl' | 'ext' | 'some' | 'falsy'"""
     if mode == "none":
+        return m
+    if mode == "lookalike":          # near misses and private / init=False attributes: never accepted as parameters
+        for k in rng.sample(LOOKALIKE, rng.randint(1, 2)):
+            m[k] = rng.choice([True, ["EXTVAL_smuggled"], "/", 1])
         return m
     if mode in ("tpl", "ext"):      # only the template keys / only the external-source key
         for k in (OPT_KEYS[1:] if mode == "tpl" else OPT_KEYS[:1]):
@@ -149,7 +156,7 @@ def mk_case(doc, args, entry, env, phs, explicit=False):
 
 
 def random_doc(rng, mode=None):
-    mode = mode or rng.choice(["none", "all", "tpl", "tpl", "ext", "some", "some", "falsy"])
+    mode = mode or rng.choice(["none", "all", "tpl", "tpl", "ext", "some", "some", "falsy", "lookalike"])
     def tr_item(depth):
         r = rng.random()
         if r < 0.45:
@@ -274,6 +281,20 @@ def gen(tier, rng):
         out.append(mk_case(doc, {"ext": False, "tv": False, "paths": None}, "dict", {"ext": v, "tv": None}, ["a"]))
         doc = {"postprocessing": [tpl("post", R + "/allowed/v_in.py", rng)], "transformations": [{"type": "wildcard_placeholders"}]}
         out.append(mk_case(doc, {"ext": False, "tv": False, "paths": None}, "dict", {"ext": None, "tv": v}, ["a"]))
+    # ---- C2: look-alike keys and private attributes on every item kind ----
+    for k in LOOKALIKE:
+        for it, where in [(ext_item(rng, "file"), "t"), (ext_item(rng, "cmd"), "t"), (tpl("post", R + "/allowed/v_in.py", rng), "p"),
+                          (tpl("fin", R + "/allowed/v_in.py", rng), "f"), (tpl("fin", R + "/allowed/v_in.py", rng), "fn")]:
+            it = dict(it)
+            it[k] = rng.choice([True, ["EXTVAL_smuggled"], 1])
+            doc = {"transformations": [it] if where == "t" else [{"type": "wildcard_placeholders"}]}
+            if where == "p":
+                doc["postprocessing"] = [it]
+            elif where == "f":
+                doc["finalizers"] = [it]
+            elif where == "fn":
+                doc["finalizers"] = [nest_fin([it])]
+            out.append(mk_case(doc, {"ext": False, "tv": False, "paths": None}, "dict", {"ext": None, "tv": None}, ["a"]))
     # ---- D: laziness ("fails when first needed"): selectors, conditions, consumed placeholders ----
     for _ in range(150 if quick else 1500):
         items = []
